@@ -28,6 +28,8 @@ type pipeCase struct {
 	Repeat     int    // number of StructureModel calls on the same parsed structure (>= 1)
 	Solve      bool
 	Assemble   bool
+	ParseOnly  bool // stop after reading
+	WriteBack  bool // also write the parsed structure back as a definition text (iodef.Write)
 	ViaPre     bool // write the preprocessed structure as .inkfempre text, read it back, continue from that
 	ScratchDir string
 }
@@ -62,6 +64,8 @@ type jBar struct {
 	CL                []jCLoad
 	DL                []jDLoad
 	IsAxial, HasLoads bool
+	MatAll            [6]string // density young shear poisson yield ultimate
+	SecAll            [5]string // area istrong iweak sstrong sweak
 }
 
 type jPNode struct {
@@ -94,6 +98,8 @@ type jSolBar struct {
 
 type jPipeOut struct {
 	ParsePanic string `json:",omitempty"`
+	Major      int
+	Minor      int
 	Nodes      []jNode
 	Bars       []jBar
 	Pre        []jPre // one per StructureModel call
@@ -108,6 +114,7 @@ type jPipeOut struct {
 	Reactions  map[string][3]string
 	MaxError   string
 	PreText    string `json:",omitempty"`
+	DefText    string `json:",omitempty"`
 }
 
 func init() { commands["pipeline"] = cmdPipeline }
@@ -131,6 +138,10 @@ func dumpBars(str *structure.Structure) []jBar {
 			X1: fs(el.StartPoint().X()), Y1: fs(el.StartPoint().Y()),
 			X2: fs(el.EndPoint().X()), Y2: fs(el.EndPoint().Y()),
 			IsAxial: el.IsAxialMember(), HasLoads: el.HasLoadsApplied(),
+			MatAll: [6]string{fs(el.Material().Density), fs(el.Material().YoungMod), fs(el.Material().ShearMod),
+				fs(el.Material().PoissonRatio), fs(el.Material().YieldStrength), fs(el.Material().UltimateStrength)},
+			SecAll: [5]string{fs(el.Section().Area), fs(el.Section().IStrong), fs(el.Section().IWeak),
+				fs(el.Section().SStrong), fs(el.Section().SWeak)},
 		}
 		for _, l := range el.ConcentratedLoads {
 			b.CL = append(b.CL, jCLoad{string(l.Term), l.IsInLocalCoords, fs(l.T.Value()), fs(l.Value)})
@@ -196,6 +207,7 @@ func runPipe(c pipeCase) (out jPipeOut) {
 	if out.ParsePanic != "" {
 		return
 	}
+	out.Major, out.Minor = str.Metadata.MajorVersion, str.Metadata.MinorVersion
 	nodes := str.GetAllNodes()
 	sort.Slice(nodes, func(i, j int) bool { return nodes[i].GetID() < nodes[j].GetID() })
 	for _, n := range nodes {
@@ -205,6 +217,14 @@ func runPipe(c pipeCase) (out jPipeOut) {
 			Ext: n.IsExternallyConstrained(), Dof: n.DegreesOfFreedomNum()})
 	}
 	out.Bars = dumpBars(str)
+	if c.WriteBack {
+		var buf bytes.Buffer
+		guard(&out.ParsePanic, func() { iodef.Write(str, &buf) })
+		out.DefText = buf.String()
+	}
+	if c.ParseOnly {
+		return
+	}
 
 	if c.Repeat < 1 {
 		c.Repeat = 1
